@@ -95,7 +95,14 @@ def run(prop, tier, seed, a):
     tg = time.time()
     mod.obligations(cx)
     from .nativeio import flush_differential
-    flush_differential(cx)
+    diff_err = None
+    try:
+        flush_differential(cx)
+    except Unsupported as x:
+        # engine and CPython disagree: nothing the engine derives is believed on its own.  Obligations are still solved, because a
+        # refutation that the REAL code reproduces (native replay), or a structural finding (write to state that outlives the call -
+        # which is also what makes a function's results history dependent and the differential fail), stands without the engine
+        diff_err = x
     gen_s = time.time() - tg
     obs = cx.obs
     if a.only: obs = [o for o in obs if fnmatch.fnmatch(o.name, a.only)]
@@ -164,9 +171,13 @@ def run(prop, tier, seed, a):
                 r['detail'] = "counterexample to induction not reproduced on the real code (%s): %s" % (path, r.get('detail', ''))
                 undecided.append(r)
             else: keep.append((r, path))
+        if diff_err is not None:
+            keep = [(r, p_) for r, p_ in keep if r.get('replayed') or r.get('meta', {}).get('kind') in ('frame', 'scan') or r.get('native_failures')]
+            if not keep: raise diff_err
         if not keep:
             code = 2
         refuted = [r for r, _ in keep]; paths = [p_ for _, p_ in keep]
+    if diff_err is not None and code != 1: raise diff_err
     if code == 1:
         for r, path in zip(refuted, paths):
             suffix = "" if r.get('replayed') else " no-failing-input-found"
